@@ -8,27 +8,7 @@ use vstd::prelude::*;
 
 verus! {
 
-// ---------------------------------------------------------------- specification
-// value of a base64 character (inverse RFC 4648 alphabet; everything else, incl. '=', is 0 as in the table)
-pub open spec fn dec_val(c: u8) -> u8 {
-    if 65 <= c <= 90 { (c - 65) as u8 } else if 97 <= c <= 122 { (c - 71) as u8 } else if 48 <= c <= 57 { (c + 4) as u8 } else if c == 43 { 62u8 } else if c == 47 { 63u8 } else { 0u8 }
-}
-pub open spec fn is_b64_char(c: u8) -> bool { (65 <= c <= 90) || (97 <= c <= 122) || (48 <= c <= 57) || c == 43 || c == 47 || c == 61 }
-pub open spec fn all_b64(t: Seq<u8>) -> bool { forall|i: int| 0 <= i < t.len() ==> is_b64_char(#[trigger] t[i]) }
-pub open spec fn q_size(q: Seq<u8>) -> int { if q[2] == 61u8 { 1 } else if q[3] == 61u8 { 2 } else { 3 } }
-pub open spec fn q_bytes(q: Seq<u8>) -> Seq<u8> {
-    let o0 = dec_val(q[0]); let o1 = dec_val(q[1]); let o2 = dec_val(q[2]); let o3 = dec_val(q[3]);
-    seq![(o0 << 2) | (o1 >> 4), (o1 << 4) | (o2 >> 2), (o2 << 6) | o3]
-}
-// bytes denoted by one 4-character quantum (padding shortens it); that q_bytes(enc3(a,b,c)) == [a,b,c] for all
-// 2^24 groups is proved on the real decode_u8x4 by the Kani harness c14_quantum_roundtrip
-pub open spec fn dec4(q: Seq<u8>) -> Seq<u8> { q_bytes(q).subrange(0, q_size(q)) }
-// bytes denoted by the complete quanta of a text
-pub open spec fn dec_text(t: Seq<u8>) -> Seq<u8>
-    decreases t.len(),
-{
-    if t.len() < 4 { Seq::<u8>::empty() } else { dec4(t.subrange(0, 4)) + dec_text(t.skip(4)) }
-}
+//@ include b64_dec_spec.inc
 
 proof fn lemma_dec_text_split(t: Seq<u8>, k: int)
     requires 0 <= k <= t.len(), k % 4 == 0,
